@@ -242,7 +242,8 @@ def mesh_table(tier):
     out.append({"name": "cube_unreferenced_vertices",
                 "verts": [[3, 3, 3]] + verts + [[1, 1, 1], [5, 1, 1], [-2, -2, -2]],
                 "faces": [[i + 1 for i in f] for f in faces], "closed": True,
-                "snap_ray": SNAP_RAY, "snap_pt": SNAP_PT, "snap_d2": SNAP_D2})
+                "snap_ray": SNAP_RAY, "snap_pt": SNAP_PT, "snap_d2": SNAP_D2,
+                "sampled": 0.6})     # 0.6 of the usual sample, thorough four times that (the plain cube has the full product)
     # (audit round) eleven corner tetrahedra in a row along x (44 faces, eleven bodies; a ray along x near the
     # axis crosses 22 triangles: more than the 20 hits the embree wrapper used to stop at).  Always sampled
     # (never the full product); origins are also taken shifted along x.
@@ -950,7 +951,8 @@ def main(argv):
             "thorough: per mesh every ray (origin, direction) with origin in {-2..5}^3, the half-odd points "
             "{-3/2..9/2}^3 or the quarter points {-7/4, -3/4, .. 21/4}^3 and direction in {-2..2}^3 \\ 0, and "
             "every quarter-lattice point of {-7/4..21/4}^3 "
-            "with at least two odd-quarter coordinates (the comb mesh: four times the quick sample instead); a seeded "
+            "with at least two odd-quarter coordinates (the cube with unreferenced vertices and the comb mesh: four "
+            "times the quick sample instead); a seeded "
             "1/32 of these rays and points again at each of the two far placements, 1/64 at each scale, with other "
             "direction lengths and through the other entry points, 1/128 after each history" if big else
             "quick: per mesh a seeded sample of rays (origins {-2..5}^3, half-odd {-3/2..9/2}^3 and odd-quarter "
